@@ -8,6 +8,6 @@ CONSTANTS
   NOrigs = {0, 1}
   Intfs = {"keep", "recursive"}
   Gen = FALSE
-INVARIANTS TypeOK InvSuccessSound InvFailureReported InvNoRedundant InvUnpinIdempotent
+INVARIANTS TypeOK InvSuccessSound InvFailureReported InvNoRedundant InvLsTruthful InvUnpinIdempotent
   InvStallGivesUp InvOriginsBestEffort InvCallReturns InvCancelPropagates InvUpdateOnlyIfRecursive InvSourceKept
 PROPERTY Termination
